@@ -31,3 +31,43 @@ Theorem C15_dir_append_back_to_front :
   (list N -> list N) -> forall (spc : N) (d : Model.dir) (recs_new : list Model.rec), ProofsView.cap_ok d -> (0 < spc)%N -> ProofsAppend.fits d (Model.last_end (Model.groups (Model.d_recs d)) + N.of_nat (length (recs_new ++ [Model.zero_rec])) - 1) -> map fst (Model.append_pokes (Model.last_end (Model.groups (Model.d_recs d))) (recs_new ++ [Model.zero_rec])) = rev (map (fun j : nat => (Model.last_end (Model.groups (Model.d_recs d)) + N.of_nat j)%N) (seq 0 (length (recs_new ++ [Model.zero_rec])))) /\ (forall j : nat, 1 <= j < length (recs_new ++ [Model.zero_rec]) -> exists dj : Model.dir, Model.pokes spc d (firstn j (Model.append_pokes (Model.last_end (Model.groups (Model.d_recs d))) (recs_new ++ [Model.zero_rec]))) = (dj, None) /\ firstn (N.to_nat (Model.last_end (Model.groups (Model.d_recs d)))) (Model.d_recs dj) = firstn (N.to_nat (Model.last_end (Model.groups (Model.d_recs d)))) (Model.d_recs d) /\ (exists extra : list Model.group, Model.groups (Model.d_recs dj) = Model.groups (Model.d_recs d) ++ extra) /\ (ProofsBase.kind_of (nth (N.to_nat (Model.last_end (Model.groups (Model.d_recs d)))) (Model.d_recs d) Model.zero_rec) = ProofsBase.KEnd -> Model.groups (Model.d_recs dj) = Model.groups (Model.d_recs d) /\ ProofsView.view (Model.d_recs dj) = ProofsView.view (Model.d_recs d))).
 Proof. exact FatDir.ProofsAppend.setitem_pokes_back_to_front. Qed.
 Print Assumptions C15_dir_append_back_to_front.
+
+(* ---------------- crash points of the path operations at record level (FatCrash/: micro-step decomposition of FatVol.step) ---------------- *)
+From Coq Require Import ZArith.
+From NV Require Import Lib.Res.
+From NV Require FatAlloc.Model FatVol.Model FatVol.Spec FatVol.ProofsInv FatVol.Proofs FatCrash.Model FatCrash.Clean FatCrash.Proofs FatCrash.ProofsAll.
+
+(* every path operation is the list of its elementary stores IN THE ORDER THE CODE PERFORMS THEM (one FAT entry, one directory slot, dot entries, one zeroed cluster, one size update); folding them gives exactly the proved operation of the volume model (FatVol.step), for every outcome *)
+Theorem C15_micro_steps_refine_operation :
+  forall (upper : Model.name -> Model.name) (V : Model.vparams) (s : Model.vol) (o : Model.op), ProofsInv.VolInv upper V s -> Proofs.op_guard upper s o -> fold_left (Model.apply_m upper) (Model.micro upper V s o) s = fst (Model.step upper V s o).
+Proof. exact FatCrash.Proofs.micro_refines_step. Qed.
+Print Assumptions C15_micro_steps_refine_operation.
+
+(* AT EVERY PREFIX of those stores -- every crash point -- every entry that is not a target of the operation is found, by long name in any case and by alias, as the IDENTICAL entry; its chain is the same list of clusters, every FAT entry of the chain keeps its value, and none of its clusters has been re-linked, freed or zeroed *)
+Theorem C15_bystanders_intact :
+  forall (upper : Model.name -> Model.name) (V : Model.vparams), ProofsInv.params_wf V -> forall (s : Model.vol) (o : Model.op) (n : nat), ProofsInv.VolInv upper V s -> Proofs.op_guard upper s o -> let sn := Proofs.prefix_state upper V s o n in (forall (k : N) (key : Model.name) (e : Model.entry), Model.lookup upper key (Model.items_of s k) = Some e -> ~ ProofsOps.Tk upper s o k (Model.e_alias e) -> Model.lookup upper key (Model.items_of sn k) = Some e) /\ (forall (k : N) (e : Model.entry), In e (ProofsInv.lives_of s k) -> Model.is_dir e = false -> ~ ProofsOps.Tk upper s o k (Model.e_alias e) -> Model.chain_of V (Model.v_fat sn) (Model.e_clu e) = Model.chain_of V (Model.v_fat s) (Model.e_clu e) /\ (forall c : N, In c (Model.chain_of V (Model.v_fat s) (Model.e_clu e)) -> Model.get (Model.ftbl (Model.v_fat sn)) c = Model.get (Model.ftbl (Model.v_fat s)) c /\ ~ In c (Proofs.touched (firstn n (Model.micro upper V s o))))) /\ (forall k : N, ~ ProofsOps.Dset upper V s o k -> Model.d_dot (Model.get_dir sn k) = Model.d_dot (Model.get_dir s k) /\ (~ ProofsOps.DDset upper s o k -> Model.d_dotdot (Model.get_dir sn k) = Model.d_dotdot (Model.get_dir s k))).
+Proof. exact FatCrash.Proofs.bystanders_intact. Qed.
+Print Assumptions C15_bystanders_intact.
+
+(* a path none of whose components selects a target resolves identically at every crash point *)
+Theorem C15_bystander_paths_resolve :
+  forall (upper : Model.name -> Model.name) (V : Model.vparams), ProofsInv.params_wf V -> forall (s : Model.vol) (o : Model.op) (n : nat) (p : list Model.name), ProofsInv.VolInv upper V s -> Proofs.op_guard upper s o -> Proofs.avoids upper s (ProofsOps.Tk upper s o) Model.RRoot p -> Model.resolve upper (Proofs.prefix_state upper V s o n) p = Model.resolve upper s p.
+Proof. exact FatCrash.Proofs.bystander_paths_resolve. Qed.
+Print Assumptions C15_bystander_paths_resolve.
+
+(* what is in flux at a crash point belongs to the target: a FAT entry that differs was free, or belongs to the target s chain, or is the last cluster of the directory receiving the new entry; all other chains are unchanged, well-formed and pairwise disjoint *)
+Theorem C15_prefix_inconsistent_only_in_target :
+  forall (upper : Model.name -> Model.name) (V : Model.vparams), ProofsInv.params_wf V -> forall (s : Model.vol) (o : Model.op) (n : nat), ProofsInv.VolInv upper V s -> Proofs.op_guard upper s o -> let sn := Proofs.prefix_state upper V s o n in length (Model.ftbl (Model.v_fat sn)) = length (Model.ftbl (Model.v_fat s)) /\ (forall c : N, Model.get (Model.ftbl (Model.v_fat sn)) c <> Model.get (Model.ftbl (Model.v_fat s)) c -> Model.get (Model.ftbl (Model.v_fat s)) c = 0%N \/ In c (ProofsOps.tchain upper V s o) \/ In c (ProofsOps.growdir upper V s o)) /\ (forall c : N, In c (ProofsOps.growdir upper V s o) -> Model.get (Model.ftbl (Model.v_fat sn)) c <> 0%N) /\ (forall ow : N, In ow (ProofsInv.owners V s) -> Proofs.bystb upper V s o ow = true -> ProofsFat.chn V (Model.v_fat sn) ow = ProofsFat.chn V (Model.v_fat s) ow /\ ProofsBase.chain_wf (Model.PP V) (Model.vp_limit V) (Model.ftbl (Model.v_fat sn)) (ProofsFat.chn V (Model.v_fat s) ow)) /\ NoDup (flat_map (ProofsFat.chn V (Model.v_fat sn)) (filter (Proofs.bystb upper V s o) (ProofsInv.owners V s))) /\ (forall (k : N) (e : Model.entry), In e (ProofsInv.lives_of s k) -> Model.is_dir e = false -> ~ ProofsOps.Tk upper s o k (Model.e_alias e) -> In (Model.e_clu e) (filter (Proofs.bystb upper V s o) (ProofsInv.owners V s))).
+Proof. exact FatCrash.Proofs.prefix_inv_weak. Qed.
+Print Assumptions C15_prefix_inconsistent_only_in_target.
+
+Theorem C15_directories_stay_readable :
+  forall (upper : Model.name -> Model.name) (V : Model.vparams), ProofsInv.params_wf V -> forall (s : Model.vol) (o : Model.op) (n : nat) (d : N), ProofsInv.VolInv upper V s -> Proofs.op_guard upper s o -> ProofsInv.in_store s d -> ~ (exists p : list Model.name, o = Model.ORmdir p /\ ProofsOps.Dset upper V s o d) -> exists ext : list N, ProofsFat.chn V (Model.v_fat (Proofs.prefix_state upper V s o n)) (Model.dir_start V d) = ProofsFat.chn V (Model.v_fat s) (Model.dir_start V d) ++ ext.
+Proof. exact FatCrash.Proofs.dir_chains_readable. Qed.
+Print Assumptions C15_directories_stay_readable.
+
+(* with the in-place compaction of a full directory spelled out record by record: every prefix state is a prefix state as above, or one with ONE directory in a compaction view in which every entry stays listed with its alias, attributes, size and first cluster (possibly twice, possibly under its 8.3 name only) *)
+Theorem C15_bystanders_during_compaction :
+  forall (upper : Model.name -> Model.name) (V : Model.vparams), ProofsInv.params_wf V -> forall (s : Model.vol) (o : Model.op) (n : nat), ProofsInv.VolInv upper V s -> Proofs.op_guard upper s o -> let sx := ProofsAll.prefix_state_x upper V s o n in (exists k : nat, sx = Proofs.prefix_state upper V s o k) \/ (exists (k : nat) (id : N) (v : list Model.item), let sp := Proofs.prefix_state upper V s o k in In v (Clean.clean_views (Model.items_of sp id)) /\ sx = Model.set_items sp id v /\ Model.v_fat sx = Model.v_fat sp /\ (forall d : N, d <> id -> Model.items_of sx d = Model.items_of sp d) /\ (forall e : Model.entry, In e (ProofsInv.lives_of sp id) -> ProofsClean.shown e (Model.items_of sx id)) /\ (forall x : Model.entry, In (Model.Live x) (Model.items_of sx id) -> exists e : Model.entry, In e (ProofsInv.lives_of sp id) /\ (x = e \/ x = Clean.short' e)) /\ (forall e : Model.entry, In e (ProofsInv.lives_of s id) -> ~ ProofsOps.Tk upper s o id (Model.e_alias e) -> exists x : Model.entry, In (Model.Live x) (Model.items_of sx id) /\ Model.e_alias x = Model.e_alias e /\ Model.e_attr x = Model.e_attr e /\ Model.e_size x = Model.e_size e /\ Model.e_clu x = Model.e_clu e)).
+Proof. exact FatCrash.ProofsAll.bystanders_intact_x. Qed.
+Print Assumptions C15_bystanders_during_compaction.
